@@ -16,7 +16,7 @@ CONFIGS = {
         ("MC_C01_struct", "MC_C01_struct.cfg", {"MaxSegs": 2, "NVals": "c_NValsQ"}, ["eager"], 4),
         ("MC_C01_types", "MC_C01_types.cfg", {"MaxSegs": 1}, ["eager", "lazy"], 1),
         ("MC_C01_props", "MC_C01_props.cfg", {"MaxSegs": 2, "MaxPropObjs": 1}, ["eager"], 3),
-        ("MC_C01_struct", "MC_C01_struct.cfg", {"MaxSegs": 2, "ObjLists": "c_ObjListsPQ", "PropNames": "c_PropNamesP", "PropVals": "c_PropValsP", "MaxPropObjs": 2, "NVals": "c_NValsP", "KVals": "c_KValsP"}, ["eager"], 4),
+        ("MC_C01_struct", "MC_C01_struct.cfg", {"MaxSegs": 2, "ObjLists": "c_ObjListsPQ", "PropNames": "c_PropNamesP", "PropVals": "c_PropValsP", "MaxPropObjs": 2, "NVals": "c_NValsP", "KVals": "c_KValsP"}, ["eager", "lazy"], 4),
     ],
     "thorough": [
         ("MC_C01_struct", "MC_C01_struct.cfg", {"MaxSegs": 2}, ["eager", "lazy"], 4),
@@ -37,7 +37,7 @@ def run(tier):
         run_config(chk, module, cfg, ov,
                    lambda rec, i: {"rec": rec, "seed": chk.seed, "modes": modes, "rot": (i + chk.seed) % rots,
                                    "widen": 260 if (i + chk.seed) % 499 == 0 else 0,
-                                   "manyprops": (i + chk.seed) % 499 == 1, "repeat": 130 if (i + chk.seed) % 499 == 2 else 0},
+                                   "manyprops": (i + chk.seed) % 499 == 1, "metapad": (i // 7) % 11 if i % 5 == 0 else 0, "repeat": 130 if (i + chk.seed) % 499 == 2 else 0},
                    "harness.segments", "replay_segments_case", sample_fn=sample_fn, sample_every=20011)
     # TRACE (code -> spec): the repository's own scenario / data files, parsed by the independent structural parser,
     # are run through the reader model (Trace_Segments.tla) and compared with what TdmsFile.read observed
